@@ -302,6 +302,7 @@ func main() {
 	indexSites(pkgs)
 	ixBodies(pkgs)
 	caseMapSites(pkgs)
+	errorTemplates(pkgs)
 	if p := pkgs["cors"]; p != nil {
 		icfgWrites(p)
 	}
